@@ -11,7 +11,8 @@ use crate::rng::Rng;
 use serde_json::{json, Value};
 
 const CALS: [&str; 6] = ["iso8601", "iso8601", "iso8601", "gregory", "hebrew", "japanese"];
-const NAMED: [&str; 6] = ["UTC", "America/New_York", "Europe/London", "Asia/Kolkata", "Australia/Lord_Howe", "Africa/Monrovia"];
+// (the last three: names with a sign or a digit in them - Etc/GMT+5 is five hours WEST of Greenwich)
+const NAMED: [&str; 9] = ["UTC", "America/New_York", "Europe/London", "Asia/Kolkata", "Australia/Lord_Howe", "Africa/Monrovia", "Etc/GMT+5", "Etc/GMT-14", "Etc/GMT+0"];
 const ENUMS: [(&str, &[&str]); 9] = [
     ("Unit", &["Auto", "Nanosecond", "Microsecond", "Millisecond", "Second", "Minute", "Hour", "Day", "Week", "Month", "Year"]),
     ("RoundingMode", &["Ceil", "Floor", "Expand", "Trunc", "HalfCeil", "HalfFloor", "HalfExpand", "HalfTrunc", "HalfEven"]),
